@@ -105,7 +105,7 @@ func runC04(c *Ctx) {
 	c.rule(P, "lstat", "the FileInfo feeding an attribute record is an Lstat result", 2)
 	c.rule(P, "fileid", "FileId = fnv64a(path) of the path that was stat'ed", 2)
 	c.rule(P, "typebits", "no wire-derived value is stored into NFSAttrs.Mode of a sink-reaching record without the object's type bits", 1)
-	runC04ChmodType(c)
+	runC04ChmodType(c, P)
 	c.rule(P, "ftype", "mode type bits → ftype3 table in encodeFileAttributes equals RFC 1813 §2.5", 7)
 	c.rule(P, "inval", "every backend mutation that changes an object's attributes (create/remove/rename/mkdir/symlink, data writes, truncation) invalidates that object's cached attributes before any cache read, so replies built from the cache agree with the backend (shared rule with C01/C02)", 15)
 	runInval(c, P, "ns")
